@@ -136,6 +136,35 @@ def _names(obj, acc_list, griffe, prefix=""):
             _names(m, acc_list, griffe, where + ".")
 
 
+def _view(obj, out, prefix=""):
+    """The fields the property names, read through the object API (not through the encoder): path -> field -> value."""
+    def ex(e):
+        return None if e is None else str(e)
+
+    def doc(o):
+        d = o.docstring
+        return None if d is None else (d.value, d.lineno, d.endlineno)
+
+    for name, m in obj.members.items():
+        where = f"{prefix}{name}"
+        if m.is_alias:
+            out[where] = {"kind": "alias", "name": m.name, "span": (m.alias_lineno, m.alias_endlineno), "target": m.target_path}
+            continue
+        v = {"kind": m.kind.value, "name": m.name, "span": (m.lineno, m.endlineno), "docstring": doc(m), "labels": sorted(m.labels)}
+        if m.is_function:
+            v["parameters"] = [(p.name, getattr(p.kind, "value", p.kind), ex(p.annotation), ex(p.default)) for p in m.parameters]
+            v["returns"] = ex(m.returns)
+            v["decorators"] = [(ex(d.value), d.lineno, d.endlineno) for d in m.decorators]
+        elif m.is_attribute:
+            v["value"], v["annotation"] = ex(m.value), ex(m.annotation)
+        elif m.is_class:
+            v["bases"] = [ex(b) for b in m.bases]
+            v["decorators"] = [(ex(d.value), d.lineno, d.endlineno) for d in m.decorators]
+        out[where] = v
+        if m.is_class or m.is_module:
+            _view(m, out, where + ".")
+
+
 def run_case(griffe, acc, case):
     from _griffe.encoders import JSONEncoder
 
@@ -194,6 +223,23 @@ def run_case(griffe, acc, case):
                     dd = _first_diff(a, b)
                     ptr = _pointer_class(dd[0], a) if dd else "order-only"
                     acc.violation(f"diff/{'full' if full else 'minimal'}/{ptr}/{agent}", f"reloaded tree serialises differently at {dd[0] if dd else '?'}: original {str(dd[1])[:80]!r}, reloaded {str(dd[2])[:80]!r}" if dd else "key order differs", cd, None, size=size)
+            # b2. the reloaded tree is equivalent, judged on the objects themselves (an encoder that drops or confuses a field reaches a
+            # fixed point after one round trip, so the JSON comparison above cannot see it)
+            v1, v2 = {"<root>": {"docstring": None if mod.docstring is None else (mod.docstring.value, mod.docstring.lineno, mod.docstring.endlineno), "labels": sorted(mod.labels)}}, {}
+            v2["<root>"] = {"docstring": None if reloaded.docstring is None else (reloaded.docstring.value, reloaded.docstring.lineno, reloaded.docstring.endlineno), "labels": sorted(reloaded.labels)}
+            try:
+                _view(mod, v1)
+                _view(reloaded, v2)
+            except Exception as e:  # noqa: BLE001
+                acc.violation(f"model/raise/{type(e).__name__}@{_frame(e)}/{agent}", f"reading the reloaded tree raised {e!r}", cd, None, size=size)
+            else:
+                if set(v1) != set(v2):
+                    acc.violation(f"model/members/{agent}", f"reloaded tree has different members: only before {sorted(set(v1) - set(v2))[:3]}, only after {sorted(set(v2) - set(v1))[:3]}", cd, None, size=size)
+                for where in v1:
+                    if where in v2 and v1[where] != v2[where]:
+                        f = next(k for k in v1[where] if v1[where].get(k) != v2[where].get(k))
+                        acc.violation(f"model/{v1[where].get('kind', 'module')}/{f}/{agent}", f"{where}.{f}: loaded {str(v1[where][f])[:90]!r}, after JSON round trip {str(v2[where].get(f))[:90]!r}", cd, None, size=size)
+                        break
             # c. names resolve as before (static trees: inspection stores no resolvable expression parents)
             try:
                 n1, n2 = [], []
